@@ -115,7 +115,42 @@ type zPtrMap struct {
 }
 
 type zPair struct {
-	Pair [2]zSquare `serix:",lenPrefix=uint8"`
+	Pair [2]zTiny `serix:",lenPrefix=uint8"`
+}
+
+// a slice of named, length-prefixed elements inside a collection with another prefix width
+type zNames struct {
+	Names []zName `serix:",lenPrefix=uint8"`
+}
+
+// an embedded pointer to an unexported struct type: a fresh destination cannot be filled (error, not panic)
+type zhidden struct {
+	H uint8 `serix:""`
+}
+
+type zEmbPtr struct {
+	*zhidden `serix:""`
+	K        uint8 `serix:""`
+}
+
+// a type that encodes / decodes itself, registered with a uint8 type code
+type zCustom struct {
+	V uint8
+}
+
+func (c zCustom) Encode() ([]byte, error) { return []byte{c.V ^ 0x5a}, nil }
+func (c *zCustom) Decode(b []byte) (int, error) {
+	if len(b) < 1 {
+		return 0, serializer.ErrDeserializationNotEnoughData
+	}
+	c.V = b[0] ^ 0x5a
+
+	return 1, nil
+}
+
+type zCustomHolder struct {
+	C zCustom `serix:""`
+	T uint8   `serix:""`
 }
 
 // interface objects under must-occur / at-most-one-of-each-type rules
@@ -155,6 +190,7 @@ func zAPI() *API {
 		Min: 0, Max: 3, MustOccur: serializer.TypePrefixes{uint32(100): struct{}{}},
 		ValidationMode: serializer.ArrayValidationModeAtMostOneOfEachTypeByte,
 	})))
+	must(api.RegisterTypeSettings(zCustom{}, TypeSettings{}.WithObjectType(uint8(9))))
 	must(api.RegisterTypeSettings(zName(""), TypeSettings{}.WithLengthPrefixType(LengthPrefixTypeAsUint16)))
 	must(api.RegisterTypeSettings(zUMap{}, TypeSettings{}.WithLengthPrefixType(LengthPrefixTypeAsByte).WithLexicalOrdering(false)))
 	must(api.RegisterTypeSettings(zCoded{}, TypeSettings{}.WithObjectType(uint32(7))))
@@ -238,13 +274,13 @@ func zShapeEq(a, b zShape) bool {
 // forward), Decode yields an equal value and consumes exactly the bytes produced (C01), and a second Encode gives
 // identical bytes (also with the map filled in another order).
 //
-//verif:h prop=C01 cover=nums,bytes,opt-nil,opt-set,coll,big,coded,refused,unordered-map,timed,strict,list,ptrmap steps=3000000 runs=3000000 timeout=600/900 reversemaps=1
+//verif:h prop=C01 cover=nums,bytes,opt-nil,opt-set,coll,big,coded,refused,unordered-map,timed,strict,list,ptrmap,names,custom steps=3000000 runs=3000000 timeout=600/900 reversemaps=1
 func H_C01_serix() { zRoundTrip() }
 
 // H_C03_serix_layout: the same exploration registered under C03 (its assertions include the comparison of Encode's
 // output with the reference layout written by hand in this file).
 //
-//verif:h prop=C03 cover=nums,bytes,opt-nil,opt-set,coll,big,coded,refused,unordered-map,timed,strict,list,ptrmap steps=3000000 runs=3000000 timeout=600/900 reversemaps=1
+//verif:h prop=C03 cover=nums,bytes,opt-nil,opt-set,coll,big,coded,refused,unordered-map,timed,strict,list,ptrmap,names,custom steps=3000000 runs=3000000 timeout=600/900 reversemaps=1
 func H_C03_serix_layout() { zRoundTrip() }
 
 func zRoundTrip() {
@@ -252,7 +288,40 @@ func zRoundTrip() {
 	ctx := context.Background()
 	opts := zOpts()
 	validating := len(opts) > 0
-	switch verifrt.Choose("shape", 11) {
+	switch verifrt.Choose("shape", 13) {
+	case 11:
+		v := &zNames{}
+		var ref []byte
+		n := verifrt.Choose("n", 3)
+		ref = append(ref, byte(n))
+		for k := 0; k < n; k++ {
+			nm := zName(verifrt.Bytes("nm", 1))
+			if len(nm) == 1 {
+				verifrt.Assume(nm[0] < 0x80)
+			}
+			v.Names = append(v.Names, nm)
+			ref = zCat(ref, zLE(uint64(len(nm)), 2), []byte(nm)) // the element's own registered prefix (uint16), not the collection's
+		}
+		enc, err := api.Encode(ctx, v, opts...)
+		verifrt.Assert(err == nil && bytes.Equal(enc, ref), "Encode of a slice of named length-prefixed elements differs from the documented layout (elements carry their own registered prefix)")
+		out := &zNames{}
+		cnt, derr := api.Decode(ctx, enc, out, opts...)
+		same := derr == nil && cnt == len(enc) && len(out.Names) == len(v.Names)
+		for k := range v.Names {
+			if k < len(out.Names) {
+				same = verifrt.And(same, out.Names[k] == v.Names[k])
+			}
+		}
+		verifrt.Assert(same, "Decode(Encode(v)) differs from v (slice of named length-prefixed elements)")
+		verifrt.Cover("names")
+	case 12:
+		v := &zCustomHolder{C: zCustom{V: verifrt.U8("cv")}, T: verifrt.U8("t")}
+		enc, err := api.Encode(ctx, v, opts...)
+		verifrt.Assert(err == nil && bytes.Equal(enc, []byte{9, v.C.V ^ 0x5a, v.T}), "Encode of a self-encoding type with a type code differs from the documented layout (type code, then its own bytes)")
+		out := &zCustomHolder{}
+		cnt, derr := api.Decode(ctx, enc, out, opts...)
+		verifrt.Assert(derr == nil && cnt == len(enc) && *out == *v, "Decode(Encode(v)) differs from v (self-encoding type with a type code)")
+		verifrt.Cover("custom")
 	case 9:
 		v := &zList{N: zName(verifrt.Bytes("name", 1))}
 		if len(v.N) == 1 {
@@ -604,9 +673,13 @@ func zDecodeArbitrary(canonical bool, only int) {
 	var target any
 	shape := only
 	if shape < 0 {
-		shape = verifrt.Choose("shape", 10)
+		shape = verifrt.Choose("shape", 12)
 	}
 	switch shape {
+	case 10:
+		target = &zEmbPtr{}
+	case 11:
+		target = &zCustomHolder{}
 	case 8:
 		target = &zOptTiny{}
 	case 9:
